@@ -156,6 +156,23 @@ pub fn run(op: &str, a: &Args) -> Option<Args> {
     match op {
         // typed checked constructors: Ok(array) => the array must be valid under the specification
         "c09.typed" => run_typed(a),
+        // RecordBatch::try_new_with_options: [row_count?][nfields; ..] fields [type; nullable] columns [type; len; null_count]
+        "c09.batch" => {
+            use arrow_array::{Array, ArrayRef, RecordBatch, RecordBatchOptions};
+            let rc = a[0].first().map(|x| usize::try_from(x).unwrap());
+            let nf = to_usize(&a[1]);
+            let dt = |c: i64| match c { 0 => DataType::Int32, 1 => DataType::Utf8, 2 => DataType::Boolean, _ => DataType::Int64 };
+            let fields: Vec<Field> = a[2..2 + nf].iter().enumerate().map(|(i, gq)| { let v = to_i64s(gq); Field::new(format!("c{i}"), dt(v[0]), v[1] != 0) }).collect();
+            let cols: Vec<ArrayRef> = a[2 + nf..].iter().map(|gq| { let v = to_i64s(gq); let (n, nulls) = (v[1] as usize, v[2] as usize);
+                let valid = |i: usize| i >= nulls;
+                match v[0] { 0 => Arc::new(arrow_array::Int32Array::from((0..n).map(|i| valid(i).then_some(i as i32)).collect::<Vec<_>>())) as ArrayRef,
+                    1 => Arc::new(arrow_array::StringArray::from((0..n).map(|i| valid(i).then_some("x")).collect::<Vec<_>>())),
+                    2 => Arc::new(arrow_array::BooleanArray::from((0..n).map(|i| valid(i).then_some(true)).collect::<Vec<_>>())),
+                    _ => Arc::new(arrow_array::Int64Array::from((0..n).map(|i| valid(i).then_some(i as i64)).collect::<Vec<_>>())) } }).collect();
+            let opts = RecordBatchOptions::new().with_row_count(rc);
+            let r = RecordBatch::try_new_with_options(Arc::new(arrow_schema::Schema::new(fields)), cols, &opts);
+            Some(vec![g(r.is_ok() as u8)])
+        }
         // verdict of the real validators; [path][tree...]
         "c09.validate" | "c09.accepts" => {
             let path = to_usize(&a[0]);
@@ -461,6 +478,25 @@ fn has_nulls_misfit(n: &Node) -> bool {
 }
 
 pub fn generate(tier: &str, r: &mut Rng, emit: &mut dyn FnMut(Case)) {
+    // record batches: schema / column agreement
+    for _ in 0..(if tier == "thorough" { 4000 } else { 500 }) {
+        let nf = r.below(4); let rows = r.below(6);
+        let mut fields = Vec::new(); let mut cols = Vec::new();
+        for _ in 0..nf { let t = r.below(4) as i64; let nb = r.bool(); fields.push(gs(&[t, nb as i64]));
+            let nulls = if nb && r.bool() { r.below(rows + 1) } else { 0 }; cols.push(gs(&[t, rows as i64, nulls as i64])) }
+        let mut m = "ok";
+        match r.below(8) {
+            0 if nf > 0 => { let i = r.below(nf); cols[i][1] = BigInt::from(rows + 1); m = "len" }
+            1 if nf > 0 => { let i = r.below(nf); cols[i][0] = BigInt::from((to_i64s(&cols[i])[0] + 1) % 4); m = "type" }
+            2 if nf > 0 && rows > 0 => { let i = r.below(nf); fields[i][1] = BigInt::from(0); cols[i][2] = BigInt::from(1); m = "nonnull" }
+            3 => { cols.push(gs(&[0, rows as i64, 0])); m = "extra_col" }
+            4 if nf > 0 => { cols.pop(); m = "missing_col" }
+            _ => {}
+        }
+        let rc: Group = match r.below(3) { 0 => vec![], 1 => g(rows), _ => g(rows + r.below(2)) };
+        let mut args: Args = vec![rc, g(nf)]; args.extend(fields); args.extend(cols);
+        emit(Case::new("c09.batch", args, &["c09.batch.spec"], format!("batch nf{nf} {m}")));
+    }
     let n = if tier == "thorough" { 40000 } else { 4000 };
     for _ in 0..n {
         let ty = gen_ty(r, 2);
